@@ -179,8 +179,13 @@ def _remove_node_and_replace_values(
     # Update graph/function outputs if the node generates output
     if any(remove_value.is_graph_output() for remove_value in remove_values):
         replacement_mapping = dict(zip(remove_values, new_values))
+        # A removed value may be listed at several output positions: all of them
+        # get the value chosen for its first position
+        placed: dict[ir.Value, ir.Value] = {}
         for idx, graph_output in enumerate(graph.outputs):
-            if graph_output in replacement_mapping:
+            if graph_output in placed:
+                graph.outputs[idx] = placed[graph_output]
+            elif graph_output in replacement_mapping:
                 new_value = replacement_mapping[graph_output]
                 if new_value.is_graph_output() or new_value.is_graph_input():
                     # If the new value is also a graph input/output, we need to
@@ -198,7 +203,7 @@ def _remove_node_and_replace_values(
                         ],
                     )
                     # reuse the name of the graph output
-                    graph.outputs[idx] = identity_node.outputs[0]
+                    graph.outputs[idx] = placed[graph_output] = identity_node.outputs[0]
                     graph.insert_before(
                         remove_node,
                         identity_node,
@@ -213,7 +218,7 @@ def _remove_node_and_replace_values(
                         new_value.type = graph_output.type
                     if new_value.shape is None:
                         new_value.shape = graph_output.shape
-                    graph.outputs[idx] = new_value
+                    graph.outputs[idx] = placed[graph_output] = new_value
 
     # Reconnect the users of the deleted values to use the new values
     ir.convenience.replace_all_uses_with(remove_values, new_values)
